@@ -689,7 +689,18 @@ pub fn c14_reload(cx: &mut Ctx) {
                     cx.v("C14", "changed_pool_not_applied", "C14/valid/changed_servers_not_listed", done_seq, "SHOW DATABASES after the reload does not list the new server of db2".into());
                 }
             }
-            "add_pool_server_down" | "change_general" | "swap_roles" => {}
+            "change_user_pool_size" => {
+                // SHOW DATABASES: name, host, port, database, force_user, pool_size, ...
+                if !a.iter().any(|r| r.first().map(|n| n.starts_with("db2_")).unwrap_or(false) && r.get(5).map(|v| v == "3").unwrap_or(false)) {
+                    cx.v("C14", "changed_pool_not_applied", "C14/valid/changed_pool_size_not_listed", done_seq, "SHOW DATABASES after the reload does not show pool_size 3 for db2".into());
+                }
+            }
+            "change_pool_mode" => {
+                if !a.iter().any(|r| r.first().map(|n| n.starts_with("db2_")).unwrap_or(false) && r.get(8).map(|v| v == "session").unwrap_or(false)) {
+                    cx.v("C14", "changed_pool_not_applied", "C14/valid/changed_pool_mode_not_listed", done_seq, "SHOW DATABASES after the reload does not show pool_mode session for db2".into());
+                }
+            }
+            "add_pool_server_down" | "change_general" | "swap_roles" | "change_user_password" => {}
             _ => {
                 if !same {
                     let diff: Vec<&Vec<String>> = a.symmetric_difference(b).collect();
@@ -731,11 +742,23 @@ pub fn c14_reload(cx: &mut Ctx) {
     let db3_client = cx.param_u64("db3_client", 0) as u32;
     let db2_late = cx.param_u64("db2_late_client", 0) as u32;
     let db_role_client = cx.param_u64("db_role_client", 0) as u32;
+    let old_password_client = cx.param_u64("old_password_client", 0) as u32;
     for c in h.clients.values() {
         if !is_data_client(c) {
             continue;
         }
         let removed_pool = valid && variant == "remove_pool" && c.database == "db2";
+        if c.id == old_password_client && old_password_client != 0 {
+            // the password of the replaced file, presented after the reload was acknowledged
+            if c.connect_seq > done_seq {
+                if c.auth_result == "ok" {
+                    cx.v("C14", "old_definition_used", "C14/valid/login_with_replaced_password", c.connect_seq, format!("client {} logged in to db2 with the password of the old file after the reload that changed it", c.id));
+                } else {
+                    cx.probe("c14_replaced_password_refused");
+                }
+            }
+            continue;
+        }
         if c.database == "db" || (c.database == "db2" && !removed_pool) {
             if c.id == db2_late && !(c.database == "db2") {
                 continue;
